@@ -30,6 +30,10 @@ fn entry(ent: u8, salt: u64, side: u64, idx: usize) -> f64 {
             }
         }
         1 => (Hx::new().u(salt).u(side).u(idx as u64).finish() % 19) as f64 - 9.0,
+        // 3 / 4: the real entries of kind 2 rescaled exactly: one operand tiny (2^-80, far below machine epsilon
+        // in absolute terms), the other large (2^60); the product is the kind-2 product times 2^-20
+        3 => entry(2, salt, side, idx) * if side == 0 { 2f64.powi(-80) } else { 2f64.powi(60) },
+        4 => entry(2, salt, side, idx) * if side == 0 { 2f64.powi(60) } else { 2f64.powi(-80) },
         _ => {
             let h = Hx::new().u(salt).u(side).u(idx as u64).finish();
             let mant = ((h >> 12) & !0xffffu64 & ((1u64 << 52) - 1)) | (idx as u64 & 0xffff);
@@ -111,7 +115,7 @@ pub struct MmCase {
 const MM_SUB: [&str; 3] = ["matmul", "blocked", "xtx"];
 
 pub fn check_mm(ctx: &mut Ctx, c: &MmCase) -> R {
-    if c.entry > 2 || c.m == 0 || c.l == 0 || c.n == 0 || c.ent > 2 || (c.entry == 1 && c.bsize == 0) || c.m.max(c.l).max(c.n) > 512 {
+    if c.entry > 2 || c.m == 0 || c.l == 0 || c.n == 0 || c.ent > 4 || (c.entry == 1 && c.bsize == 0) || c.m.max(c.l).max(c.n) > 512 {
         return Ok(());
     }
     let sub = MM_SUB[c.entry as usize];
@@ -122,7 +126,7 @@ pub fn check_mm(ctx: &mut Ctx, c: &MmCase) -> R {
     let (rows_a, rows_b) = (if ta { l } else { m }, if tb { n } else { l });
     let fl = flags(ta, tb);
     let nontrivial = if c.entry == 2 { m.min(l) >= 2 && m != l } else { m.min(l).min(n) >= 2 && !(m == l && l == n) };
-    ctx.case(sub, &format!("flags={}/{}/{}", fl, shape_class(m, l, n), if c.ent == 2 { "real" } else { "int" }), nontrivial, Hx::new().json(c).finish());
+    ctx.case(sub, &format!("flags={}/{}/{}", fl, shape_class(m, l, n), if c.ent == 2 { "real" } else if c.ent > 2 { "real-tiny-times-huge" } else { "int" }), nontrivial, Hx::new().json(c).finish());
     if c.entry == 1 {
         let mx = m.max(l).max(n);
         ctx.label(sub, if c.bsize == 1 { "bsize=1" } else if c.bsize >= mx { "bsize>=max" } else if l % c.bsize == 0 && n % c.bsize == 0 { "bsize-divides" } else { "bsize-ragged" });
@@ -157,7 +161,7 @@ pub fn check_mm(ctx: &mut Ctx, c: &MmCase) -> R {
     if let Some(what) = bad {
         return fail(format!("{}/value", sigbase), format!("{}: {} [entries kind {}, salt {}]", desc, what, c.ent, c.salt));
     }
-    if c.ent == 2 {
+    if c.ent >= 2 {
         ctx.worst(&format!("{}/real/{}", name, if l < 8 { "l<8" } else { "l>=8" }), worst);
     }
     Ok(())
@@ -234,7 +238,7 @@ fn run_dot(kind: u8, meth: u8, own: u8, a: Vec<f64>, ra: usize, b: Vec<f64>, rb:
 }
 
 pub fn check_dot(ctx: &mut Ctx, c: &DotCase) -> R {
-    if c.kind > 3 || c.meth > 3 || c.own > 3 || c.m == 0 || c.l == 0 || c.n == 0 || c.ent > 2 || c.m.max(c.l).max(c.n) > 512 {
+    if c.kind > 3 || c.meth > 3 || c.own > 3 || c.m == 0 || c.l == 0 || c.n == 0 || c.ent > 4 || c.m.max(c.l).max(c.n) > 512 {
         return Ok(());
     }
     if (matches!(c.kind, 1 | 3) && c.n != 1) || (matches!(c.kind, 2 | 3) && c.m != 1) {
@@ -274,7 +278,7 @@ pub fn check_dot(ctx: &mut Ctx, c: &DotCase) -> R {
     if let Some(what) = bad {
         return fail(sig("value"), format!("{}: {} [entries kind {}, salt {}]", desc, what, c.ent, c.salt));
     }
-    if c.ent == 2 {
+    if c.ent >= 2 {
         ctx.worst(if l < 8 { "Dot/real/l<8" } else { "Dot/real/l>=8" }, worst);
     }
     Ok(())
@@ -447,7 +451,7 @@ Distinct by (entry point, shapes, flags, block size, ownership, entries)."
         "matmul",
         nrand,
         16,
-        || (1usize..=maxdim, 1usize..=maxdim, 1usize..=maxdim, any::<bool>(), any::<bool>(), any::<u64>()).prop_map(|(m, l, n, ta, tb, salt)| MmCase { entry: 0, m, l, n, ta, tb, bsize: 1, ent: 2, salt }),
+        || (1usize..=maxdim, 1usize..=maxdim, 1usize..=maxdim, any::<bool>(), any::<bool>(), any::<u64>()).prop_map(|(m, l, n, ta, tb, salt)| MmCase { entry: 0, m, l, n, ta, tb, bsize: 1, ent: [2, 2, 2, 3, 4][(salt % 5) as usize], salt }),
         check_mm,
     );
     ctx.run_prop_par(
@@ -463,7 +467,7 @@ Distinct by (entry point, shapes, flags, block size, ownership, entries)."
                 ta,
                 tb,
                 bsize: 1 + bs % (2 * m.max(l).max(n)),
-                ent: 2,
+                ent: [2, 2, 2, 3, 4][(salt % 5) as usize],
                 salt,
             })
         },
@@ -473,7 +477,7 @@ Distinct by (entry point, shapes, flags, block size, ownership, entries)."
         "xtx",
         nrand / 4,
         8,
-        || (1usize..=maxdim, 1usize..=maxdim, any::<u64>()).prop_map(|(k, cdim, salt)| MmCase { entry: 2, m: cdim, l: k, n: cdim, ta: true, tb: false, bsize: 1, ent: 2, salt }),
+        || (1usize..=maxdim, 1usize..=maxdim, any::<u64>()).prop_map(|(k, cdim, salt)| MmCase { entry: 2, m: cdim, l: k, n: cdim, ta: true, tb: false, bsize: 1, ent: [2, 2, 2, 3, 4][(salt % 5) as usize], salt }),
         check_mm,
     );
     ctx.run_prop_par(
@@ -488,7 +492,7 @@ Distinct by (entry point, shapes, flags, block size, ownership, entries)."
                 m: if matches!(kind, 2 | 3) { 1 } else { m },
                 l,
                 n: if matches!(kind, 1 | 3) { 1 } else { n },
-                ent: 2,
+                ent: [2, 2, 2, 3, 4][(salt % 5) as usize],
                 salt,
             })
         },
